@@ -65,6 +65,9 @@ ParX(p, segs, m)  == Tok("par", p, segs, 0, FALSE, m)        \* %(p)s/segs..:m  
 Ref(segs, cut, q, m) == Tok("ref", "", segs, cut, q, m)
 Bad(segs, m)      == Tok("bad", "", segs, 0, FALSE, m)       \* <s1/..:m>  the method inside the brackets: malformed
 Sfx(segs, m)      == Tok("sfx", "", segs, 0, FALSE, m)       \* left-over text "/segs:m" (only in resolved values)
+Num(s)            == Tok("num", s, <<>>, 0, FALSE, "")       \* a YAML integer (e.g. 0) -- alone it is the whole value, its text is s
+Dict(s)           == Tok("dict", s, <<>>, 0, FALSE, "")      \* a YAML dictionary -- only ever the whole value of a parameter
+BadDict(p)        == Tok("baddict", p, <<>>, 0, FALSE, "")   \* (resolved values only) the dictionary parameter p inside a longer string
 Var(v)            == Tok("var", v, <<>>, 0, FALSE, "")       \* %(v)s of a private variable of the component: it stays in
                                                              \* the arguments, FlowIR binds it to the component's variable
 
@@ -123,12 +126,16 @@ ApplySuffix(v, t) ==
 (* those are evaluated in the scope of the CALLER, where a variable of the callee does not exist -- a caller's    *)
 (* %(g)s is the caller's parameter g even when the called component has a variable g).  Inside the component a    *)
 (* %(v)s of a variable is left for FlowIR; a name cannot be both a parameter and a variable of one component.     *)
+IsDict(v) == Len(v) = 1 /\ v[1].k = "dict"
 RECURSIVE ResolveFrom(_, _, _, _, _)
 ResolveFrom(val, i, env, pp, vs) ==
     IF i > Len(val) THEN <<>>
     ELSE LET t == val[i]
              here == CASE t.k = "ref" -> <<[t EXCEPT !.segs = pp \o @, !.cut = 0, !.q = FALSE]>>
                        [] t.k = "par" /\ t.s \in vs -> <<Var(t.s)>>
+                       \* a dictionary can be handed on as a whole (%(env)s and nothing else); it has no text to embed
+                       [] t.k = "par" /\ IsDict(env[t.s]) ->
+                             IF Len(val) = 1 /\ t.segs = <<>> /\ t.m = "" THEN env[t.s] ELSE <<BadDict(t.s)>>
                        [] t.k = "par" -> ApplySuffix(env[t.s], t)
                        [] OTHER       -> <<t>>
          IN here \o ResolveFrom(val, i + 1, env, pp, vs)
@@ -253,6 +260,13 @@ SemErrs(flat) ==
         \cup {Err("reference without method is never given one", {inst.site}) :
                  r \in {x \in EnvRefs(inst) : x.m = "" /\ ~\E a \in RefToks(inst.args) : a.segs = x.segs /\ a.m # ""}}
         \cup {Err("text left after a reference", {inst.site}) : r \in {j \in DOMAIN inst.args : inst.args[j].k = "sfx"}}
+        \* a dictionary parameter inside a longer string: written in the execute entry that creates the instance (it is then
+        \* in the instance's parameters) or in the text of the component template
+        \cup (IF \E q \in DOMAIN inst.env : \E j \in DOMAIN inst.env[q] : inst.env[q][j].k = "baddict"
+              THEN {Err("dictionary parameter embedded in a string of a step argument", {inst.site})}
+              ELSE IF \E j \in DOMAIN inst.args : inst.args[j].k = "baddict"
+              THEN {Err("dictionary parameter embedded in a string of a component field", {Loc("components", inst.tmpl, -1)})}
+              ELSE {})
       : i \in DOMAIN flat }
     \cup (LET E   == Edges(flat)
               cyc == CyclicPaths(flat)
@@ -344,11 +358,22 @@ MArgs(bm) == CASE bm \in {"dflt"}              -> <<>>
                [] bm = "lit"                   -> <<A("m", <<Lit("lit")>>)>>
                [] bm \in {"fwd", "dfwd", "ovr"} -> <<A("m", <<Par("g")>>)>>
                [] bm = "emb"                   -> <<A("m", <<Lit("x"), Par("g"), Par("gg"), Lit("-"), Par("g")>>)>>
+               \* falsy literals: the caller's "" / 0 is an argument like any other, it beats the (non-empty) default
+               [] bm = "litE"                  -> <<A("m", <<>>)>>
+               [] bm = "litZ"                  -> <<A("m", <<Num("0")>>)>>
+               [] bm \in {"fwdE", "fwdZ"}      -> <<A("m", <<Par("g")>>)>>
 (* g argument handed to the workflow of level k+1 by level k *)
 GArgs(bm, k) == CASE bm \in {"fwd", "dfwd", "emb"} -> <<A("g", <<Par("g")>>)>>
                   [] bm = "ovr" /\ k = 1           -> <<A("g", <<Lit("ov")>>)>>
+                  \* the falsy value comes from the entrypoint, is forwarded by main and written again literally by sub
+                  [] bm \in {"fwdE", "fwdZ"} /\ k = 1 -> <<A("g", <<Par("g")>>)>>
+                  [] bm = "fwdE"                   -> <<A("g", <<>>)>>
+                  [] bm = "fwdZ"                   -> <<A("g", <<Num("0")>>)>>
                   [] OTHER                         -> <<>>
-EArgs(bm) == IF bm \in {"fwd", "ovr", "emb"} THEN <<A("g", <<Lit("E")>>)>> ELSE <<>>
+EArgs(bm) == CASE bm \in {"fwd", "ovr", "emb"} -> <<A("g", <<Lit("E")>>)>>
+               [] bm = "fwdE" -> <<A("g", <<>>)>>
+               [] bm = "fwdZ" -> <<A("g", <<Num("0")>>)>>
+               [] OTHER -> <<>>
 
 P(name, hasD, d) == [n |-> name, hasD |-> hasD, d |-> d]
 WfParams(k) == IF k = 1 THEN <<P("g", TRUE, <<Lit("dg")>>), P("gg", TRUE, <<>>)>>
@@ -372,16 +397,20 @@ BuildWf(c, k) ==
         pStep  == [name |-> pname, tmpl |-> CASE mu("unkTemplate")      -> "nosuch"
                                                [] mu("unkParTmpl")       -> "prodBad"
                                                [] mu("varShadowsParam")  -> "prodM"
+                                               [] mu("dictInField")      -> "prodD"
                                                [] c.vr = "priv"          -> "prodV"
                                                [] c.vr = "shadow"        -> "prodG"
                                                [] OTHER                  -> "prod"]
+        dicts  == c.mut \in {"dictInStep", "dictInField"}      \* a dictionary parameter env travels down the call chain
         pArgs  == (IF mu("unkParRef") THEN <<A("m", <<Par("zz")>>)>>
+                   ELSE IF mu("dictInStep") THEN <<A("m", <<Lit("env="), Par("env")>>)>>            \* "env=%(env)s"
+                   ELSE IF mu("dictInField") THEN <<A("env", <<Par("env")>>)>>                      \* legal: the whole value
                    ELSE IF c.es.on /\ k = 1 THEN <<A("m", <<Par("g"), Lit("."), Par("e")>>)>>      \* both entry parameters show
                    ELSE MArgs(c.bm)) \o Opt(mu("unkArg"), <<A("zz", <<Lit("1")>>)>>)
         \* the nested workflow(s)
         pdown  == IF k = 1 THEN PVal(c.pd, <<pname>>, file) ELSE <<Par("p")>>
-        wArgs  == Opt(~mu("missingWfArg"), <<A("p", pdown)>>) \o GArgs(c.bm, k)
-        w2Args == <<A("p", PVal(c.pd, <<W1, PN(c, k + 1)>>, file))>> \o GArgs(c.bm, k)
+        wArgs  == Opt(~mu("missingWfArg"), <<A("p", pdown)>>) \o GArgs(c.bm, k) \o Opt(dicts, <<A("env", <<Par("env")>>)>>)
+        w2Args == <<A("p", PVal(c.pd, <<W1, PN(c, k + 1)>>, file))>> \o GArgs(c.bm, k) \o Opt(dicts, <<A("env", <<Par("env")>>)>>)
         \* the consumer
         cx     == IF k = 1 THEN <<SibRef(c.sp, <<pname>>, file)>> ELSE DeepX(c.pd, file)
         ctmpl  == IF mu("methodless") THEN "consA" ELSE IF k = 1 THEN ConsFor(c.sp) ELSE DeepCons(c.pd)
@@ -429,7 +458,8 @@ BuildWf(c, k) ==
                   \o Opt(mu("execNoStep"), <<[target |-> "ghost", args |-> <<>>]>>)
                   \o Opt(mu("dupExec"),   <<[target |-> pname, args |-> pArgs]>>)
     IN [name   |-> LvlName(k),
-        params |-> WfParams(k) \o Opt(k = 1 /\ (c.mut = "missingEntry" \/ c.es.on), <<P("e", FALSE, <<>>)>>),
+        params |-> WfParams(k) \o Opt(k = 1 /\ (c.mut = "missingEntry" \/ c.es.on), <<P("e", FALSE, <<>>)>>)
+                   \o Opt(dicts, <<IF k = 1 THEN P("env", TRUE, <<Dict("K=V")>>) ELSE P("env", FALSE, <<>>)>>),
         steps  |-> steps,
         exec   |-> IF c.ord = "rev" THEN Rev(exec) ELSE exec]
 
@@ -444,6 +474,8 @@ CompTemplates(c) ==
        [name |-> "prodBad", params |-> PM, vars |-> <<>>, args |-> <<Lit("-m "), Par("m"), Par("zz")>>],
        \* private variables: v is used by nobody else; g is also the name of a parameter of every workflow of the family
        [name |-> "prodV", params |-> PM, vars |-> <<V("v", "V1"), V("unused", "U")>>, args |-> <<Lit("-m "), Par("m"), Lit(" "), Par("v")>>],
+       [name |-> "prodD", params |-> PM \o <<P("env", FALSE, <<>>)>>, vars |-> <<>>,
+                          args |-> <<Lit("-m "), Par("m"), Lit(" env="), Par("env")>>],               \* a dictionary inside a string
        [name |-> "prodG", params |-> PM, vars |-> <<V("g", "VG")>>, args |-> <<Par("g"), Lit(" -m "), Par("m"), Lit(" "), Par("g")>>] >>
     \* a template whose variable is called like its own parameter is an error wherever it is: only present when mutated
     \o Opt(c.mut = "varShadowsParam", <<[name |-> "prodM", params |-> PM, vars |-> <<V("m", "VM")>>, args |-> <<Lit("-m "), Par("m")>>]>>)
@@ -453,25 +485,29 @@ CompTemplates(c) ==
 (* rf: the VALUE of g contains a parameter reference -- in the entrypoint (e..) or in the override (o..), naming the        *)
 (* parameter gg of main (..Known) or nothing that exists (..Unknown).  Inside the workflows (depth > 1, binding mode fwd)    *)
 (* the same spelling %(g)s is the legal reference to a parameter of the parent.                                              *)
+ERf == {"eKnown", "eUnknown", "eEmpty", "eZero"}
+ORf == {"oKnown", "oUnknown", "oEmpty", "oZero"}
 EsOff == [on |-> FALSE, eg |-> FALSE, ee |-> FALSE, ov |-> FALSE, og |-> FALSE, oe |-> FALSE, oz |-> FALSE, rf |-> "none"]
 EsAll == {[on |-> TRUE, eg |-> eg, ee |-> ee, ov |-> ov, og |-> og, oe |-> oe, oz |-> oz, rf |-> rf] :
              eg \in BOOLEAN, ee \in BOOLEAN, ov \in BOOLEAN, og \in BOOLEAN, oe \in BOOLEAN, oz \in BOOLEAN,
-             rf \in {"none", "eKnown", "eUnknown", "oKnown", "oUnknown"}}
+             rf \in ERf \cup ORf \cup {"none"}}
 RfVal(rf, plain) == CASE rf \in {"eKnown", "oKnown"}     -> <<Lit("x"), Par("gg")>>
                       [] rf \in {"eUnknown", "oUnknown"} -> <<Par("zz")>>
+                      [] rf \in {"eEmpty", "oEmpty"}     -> <<>>              \* "" : falsy, but a value
+                      [] rf \in {"eZero", "oZero"}       -> <<Num("0")>>      \* 0
                       [] OTHER -> <<Lit(plain)>>
 (* without an override nothing can be named by it; at most ONE fault per namespace (unknown name, or e without a value): the   *)
 (* compiler stops at the first fault it meets, which of two independent faults it reports is not part of the property     *)
 EsModes == {e \in EsAll : /\ (e.ov \/ ~(e.og \/ e.oe \/ e.oz)) /\ ~(e.oz /\ ~(e.ee \/ e.oe))
                           /\ (e.rf # "none" => ((e.ee \/ e.oe) /\ ~e.oz))
-                          /\ (e.rf \in {"eKnown", "eUnknown"} => e.eg) /\ (e.rf \in {"oKnown", "oUnknown"} => e.og)}
+                          /\ (e.rf \in ERf => e.eg) /\ (e.rf \in ORf => e.og)}
 (* a reference in the entrypoint's g is harmless when the override replaces g *)
 EsValid(e) == ~e.on \/ ((e.ee \/ e.oe) /\ ~e.oz /\ ~(e.rf \in {"oKnown", "oUnknown"}) /\ ~(e.rf \in {"eKnown", "eUnknown"} /\ ~e.og))
 Build(c) == [entry |-> IF c.mut = "unkEntry" THEN "nosuch" ELSE "main",
-             eargs |-> (IF c.es.on THEN Opt(c.es.eg, <<A("g", RfVal(IF c.es.rf \in {"eKnown", "eUnknown"} THEN c.es.rf ELSE "none", "E"))>>) \o Opt(c.es.ee, <<A("e", <<Lit("EE")>>)>>) ELSE EArgs(c.bm))
+             eargs |-> (IF c.es.on THEN Opt(c.es.eg, <<A("g", RfVal(IF c.es.rf \in ERf THEN c.es.rf ELSE "none", "E"))>>) \o Opt(c.es.ee, <<A("e", <<Lit("EE")>>)>>) ELSE EArgs(c.bm))
                        \o Opt(c.mut = "entryUnkArg", <<A("zz", <<Lit("1")>>)>>),
              ovr   |-> [given |-> c.es.ov,
-                        args  |-> Opt(c.es.og, <<A("g", RfVal(IF c.es.rf \in {"oKnown", "oUnknown"} THEN c.es.rf ELSE "none", "OG"))>>) \o Opt(c.es.oe, <<A("e", <<Lit("OE")>>)>>)
+                        args  |-> Opt(c.es.og, <<A("g", RfVal(IF c.es.rf \in ORf THEN c.es.rf ELSE "none", "OG"))>>) \o Opt(c.es.oe, <<A("e", <<Lit("OE")>>)>>)
                                   \o Opt(c.es.oz, <<A("zz", <<Lit("1")>>)>>)],
              wfs   |-> [k \in 1..c.d |-> BuildWf(c, k)],
              comps |-> CompTemplates(c)]
@@ -497,6 +533,8 @@ ValidChoices ==
                d \in Depths, reuse \in Reuses, ord \in Orders, nm \in Namings, sp \in Spellings, pd \in PassDowns, bm \in Bindings,
                vr \in VarModes} :
         /\ (c.vr # "none" => (Canon(c) /\ c.nm \in MutNamings))      \* variables are orthogonal to the reference spelling
+        /\ (Full \/ c.vr = "none" \/ c.bm \in {"dflt", "fwd", "dfwd", "emb"})
+        /\ (Full \/ c.bm = "dflt" \/ c.nm \in MutNamings)
         /\ c.reuse < c.d                                     \* reuse level r needs depth > r
         /\ (c.d = 1 => c.pd = "bare")                        \* no pass-down without nesting
         /\ (c.sp = "qcut" => c.d >= 2)
@@ -558,18 +596,24 @@ OnePerStep == Compiled => Len(flat) = CountComps(ns, ns.entry)
 
 (* every parameter reference has been replaced *)
 NoParamLeft == Compiled => \A i \in DOMAIN flat :
-                  /\ \A j \in DOMAIN flat[i].args : \/ flat[i].args[j].k \in {"lit", "ref"}
+                  /\ \A j \in DOMAIN flat[i].args : \/ flat[i].args[j].k \in {"lit", "ref", "num"}
                                                       \/ /\ flat[i].args[j].k = "var"      \* only a declared private variable may stay
                                                          /\ flat[i].args[j].s \in VarNames(Comp(ns, flat[i].tmpl))
-                  /\ \A q \in DOMAIN flat[i].env : \A j \in DOMAIN flat[i].env[q] : flat[i].env[q][j].k \in {"lit", "ref"}
+                  /\ \A q \in DOMAIN flat[i].env : \A j \in DOMAIN flat[i].env[q] : flat[i].env[q][j].k \in {"lit", "ref", "num", "dict"}
 (* the value of a parameter is the caller's argument when one is given, the declared default otherwise:         *)
 (* checked for the plain parameter m of the producers against the binding mode of the family (independent of     *)
 (* Resolve: the expected text is written down per mode)                                                           *)
 Text(v) == [j \in DOMAIN v |-> v[j].s]
-EsG(e) == IF e.og THEN "OG" ELSE IF e.eg THEN "E" ELSE "dg"       \* override > entrypoint > default
+Falsy(rf, plain) == CASE rf \in {"eEmpty", "oEmpty"} -> "" [] rf \in {"eZero", "oZero"} -> "0" [] OTHER -> plain
+EsG(e) == IF e.og THEN Falsy(IF e.rf \in ORf THEN e.rf ELSE "none", "OG")        \* override > entrypoint > default,
+          ELSE IF e.eg THEN Falsy(IF e.rf \in ERf THEN e.rf ELSE "none", "E")    \* a falsy value is a value
+          ELSE "dg"
 EsE(e) == IF e.oe THEN "OE" ELSE "EE"
-ExpectedM(c, k) == CASE c.es.on   -> IF k = 1 THEN <<EsG(c.es), ".", EsE(c.es)>> ELSE <<EsG(c.es)>>
+NonEmpty(ss) == SelectSeq(ss, LAMBDA x : x # "")
+ExpectedM(c, k) == CASE c.es.on   -> NonEmpty(IF k = 1 THEN <<EsG(c.es), ".", EsE(c.es)>> ELSE <<EsG(c.es)>>)
                      [] c.bm = "dflt" -> <<"dm">>
+                     [] c.bm \in {"litE", "fwdE"} -> <<>>
+                     [] c.bm \in {"litZ", "fwdZ"} -> <<"0">>
                      [] c.bm = "lit"  -> <<"lit">>
                      [] c.bm = "fwd"  -> <<"E">>
                      [] c.bm = "dfwd" -> <<"dg">>
